@@ -44,6 +44,13 @@ FAMILIES = {
     # wedge a -x- b -y- c: the middle vertex's corner carries one edge of each name
     "wedge": [(["w-x", "w-y"], "path", 3)],
     "c2wedge": [("2-clique", "clique", 2), (["w-x", "w-y"], "path", 3)],
+    # motifs that are NOT vertex-transitive while all their edges carry one name: corners of different sizes (a wedge's centre has two
+    # motif edges, its leaves one; a star's hub three; the chorded 4-cycle's chord ends three, the others two) meet in one topology
+    "wedge1": [("wedge", "path", 3)],
+    "c2wedge1": [("2-clique", "clique", 2), ("wedge", "path", 3)],
+    "star1": [("star", "star", 4)],
+    "c2chord1": [("2-clique", "clique", 2), ("chord", "chord", 4)],
+    "path4": [("path4", "path", 4)],
 }
 
 
@@ -333,6 +340,8 @@ def run_case(case):
             extra[TN.SEARCH_LIMIT] = rng.choice([1, 5, 25])
     if fam in ("two-name", "wedge", "c2wedge"):
         res.count("two_name_runs")
+    if fam in ("wedge1", "c2wedge1", "star1", "c2chord1", "path4"):
+        res.count("runs_on_single_name_motifs_with_corners_of_different_sizes")
     if info.get("list_annotations"):
         res.count("list_annotation_runs")
     if info.get("isolated_vertices"):
